@@ -55,7 +55,7 @@ var propTable = map[string]*propSpec{
 	},
 	"C12": {
 		ID:    "C12",
-		Rules: []string{"R-PREC", "R-LITERAL", "R-BLAME", "R-SCANPOS", "R-PAREN"},
+		Rules: []string{"R-PREC", "R-LITERAL", "R-BLAME", "R-SCANPOS", "R-PAREN", "R-BYTES"},
 		Explanation: "Decides the table-shaped and shape-visible part of 'the front end accepts Lua 5.4 syntax and decodes it faithfully': (R-PREC) the scanner's keyword and symbol maps are exactly the manual's, the parser's operator maps send each token to the operator of the same symbol and cover exactly the tokens the scanner classifies as operators, ops.Op.Precedence orders all 300 operator pairs as §3.4.8, and the associativity exceptions are exactly .. and ^; " +
 			"(R-LITERAL) literal decoding never indexes past the token's bytes (an empty long string is valid); (R-BLAME) a syntax error raised after a failed test of a token's type blames that token, so the reported line is the offending token's; (R-SCANPOS) the scanner's cursor is moved only by next()/backup(), where lines are counted and line ends normalised.",
 		NotDecided:  "that every valid chunk is accepted (the grammar as a whole), the denotation of numerals and escape sequences (value-level: e.g. 9223372036854775808 is read as an integer), multi-value truncation by parentheses, line-end normalisation, spelling invariance.",
